@@ -66,8 +66,8 @@ private theorem obsExcept_of_cores {k : MKey} {s s' : Ctx} (h : s'.mods.map (cor
       simp [hk, this]
   rw [this, this, h]
 
-private theorem hashParts_of_cores : ∀ (l l' : List Mod) (fi : Nat), l'.map Mod.core = l.map Mod.core →
-    hashParts l' fi = hashParts l fi := by
+private theorem hashParts_of_cores (rs : Bool) : ∀ (l l' : List Mod) (fi : Nat), l'.map Mod.core = l.map Mod.core →
+    hashPartsG rs l' fi = hashPartsG rs l fi := by
   intro l
   induction l with
   | nil => intro l' fi h; cases l' with
@@ -84,7 +84,7 @@ private theorem hashParts_of_cores : ∀ (l l' : List Mod) (fi : Nat), l'.map Mo
       obtain ⟨h1, h2, h3, h4, _⟩ := hc
       have hf : ∀ fi, hashFeats m' fi = hashFeats m fi := by
         intro fi; simp [hashFeats, Mod.allFeats, h3, h4]
-      simp only [hashParts, hf, h1, h2]
+      simp only [hashPartsG, hf, h1, h2]
       rw [ih r' _ hr]
 
 /-- where a failed call ends: nothing was attempted, or forward part + `lys_unres_glob_revert` + `lys_unres_glob_erase` -/
@@ -116,7 +116,7 @@ theorem failed_op_restores_partial (s : Ctx) (op : Op) (e : Nat) (s' : Ctx) (hq 
   have hinv : ∀ mk, Inv mk (restore mk s) s := fun mk => ⟨rfl, hq.keys, hq.flags⟩
   rcases run_error hrun with hm | hm
   · -- nothing was attempted
-    refine ⟨fun _ => ⟨by simp [ObsCore, hm], by simp [Ctx.modulesHash, hm]⟩, ⟨default, by simp [ObsExcept, hm]⟩⟩
+    refine ⟨fun _ => ⟨by simp [ObsCore, hm], by simp [Ctx.modulesHash, Ctx.modulesHashG, hm]⟩, ⟨default, by simp [ObsExcept, hm]⟩⟩
   · constructor
     · intro hf
       have h1 := pres_forward_none op hf s (hinv none)
@@ -126,7 +126,7 @@ theorem failed_op_restores_partial (s : Ctx) (op : Op) (e : Nat) (s' : Ctx) (hq 
         have : ∀ l : List Mod, l.map (coreM none) = l.map Mod.core := fun l =>
           List.map_congr_left (fun m _ => coreM_none m)
         rw [← this, ← this]; exact h2
-      exact ⟨obs_of_cores h3, by simp only [Ctx.modulesHash]; rw [hashParts_of_cores _ _ _ h3]⟩
+      exact ⟨obs_of_cores h3, by simp only [Ctx.modulesHash, Ctx.modulesHashG]; rw [hashParts_of_cores _ _ _ _ h3]⟩
     · obtain ⟨k, hk⟩ := forward_masked op s (hinv none)
       refine ⟨k, obsExcept_of_cores ?_⟩
       rw [hm]
